@@ -55,8 +55,22 @@ def main(argv):
         return 2
     ctx = Ctx(tier, repo, replay)
     chk = Check(pid, tier)
+    st_rc = 0
+    if tier == 'thorough' and not repo and os.environ.get('GBSA_SELFTEST', '1') == '1':
+        # thorough tier: facts are regenerated from scratch (cold) and the checker itself is validated in both
+        # directions on scratch copies of the current tree (seeded changes and reverted fixes must be reported with a
+        # VIOLATION line for this property, behaviour-preserving rewrites must pass) before the verdict is given
+        from . import selftest
+        st_rc = selftest.main([pid])
+        chk.extra['checker_selftest'] = {k: v for k, v in (selftest.LAST or {}).items() if k != 'results'}
+        chk.extra['checker_selftest']['cases_detail'] = [
+            '%s %s -> %s' % (r['kind'], r['name'], r['status']) for r in (selftest.LAST or {}).get('results', [])]
     try:
-        return mod.run(ctx, chk)
+        rc = mod.run(ctx, chk)
+        if rc == 0 and st_rc:
+            print('ANALYSIS-ERROR property=%s checker self-test failed (see above); verdict withheld' % pid)
+            return 2
+        return rc
     except (factsmod.AnalysisError, AnalysisError) as e:
         print('ANALYSIS-ERROR property=%s %s' % (pid, str(e)[:3000]))
         return 2
